@@ -74,3 +74,22 @@ Example C05_example :
                               op false fresh_rst fresh_world in
   ob_outcome ob = OInt /\ length (ob_cass ob) = 2%nat /\ length (w_saved w') = 1%nat.
 Proof. vm_compute. repeat split; reflexivity. Qed.
+
+(** ---- non-vacuity per theorem (wp-audit) ---- *)
+(** C05_saved_only_if_captured: both premises explicitly (no recording active; a CSave among the cassette calls) *)
+Example C05_saved_only_if_captured_nonvacuous :
+  let oc := {| o_alias := U"send"; o_static := true; o_handler := None; o_fail := true; o_default := VNone |} in
+  let op := {| op_class := U"Op"; op_classlevel := false; op_extractor := XNone;
+               op_body := Out oc (Ret (Lit VNone)) [Lit (VInt 1)] [] (Out oc Interrupt [] [] (Ret (Var 0))) |} in
+  let '(ob, _) := record_run (fun _ => 0) true {| p_rate := 1; p_ignore := false; p_skipped := false; p_copy := false |}
+                             op false fresh_rst fresh_world in
+  active fresh_rst = false /\ exists d m, List.In (CSave 0 d m) (ob_cass ob) /\ length d = 3%nat.
+Proof. vm_compute. split; [reflexivity|]. do 2 eexists. split; [right; left; reflexivity|reflexivity]. Qed.
+
+(** C05_finalised_exactly_once_under_any_interleaving, second clause: its premises (recording no longer active,
+    every thread between calls: [quiescent]) hold after the race of [C05_race_example] *)
+Example C05_race_quiescent :
+  let '(sh, ls) := run Fixed [ABegin 0 MFinalise; ABegin 1 MDiscard; AStep 1; AStep 0; AStep 1; AStep 0]
+                       (sh0, repeat idle_thread 2) in
+  ar sh = false /\ quiescent ls /\ fin sh = 1%nat.
+Proof. vm_compute. repeat split; try reflexivity. intros l [<-|[<-|[]]]; reflexivity. Qed.
